@@ -28,7 +28,7 @@ def stale_route(w, rng):
         w.emit('link %s %s handle %s' % (rel, h.slot, x.slot))
         w.emit('getlinkh %s %s %s idof %s' % (slot, rel, h.slot, x.slot))
         w.emit('unlink %s %s handle %s' % (rel, h.slot, slot))
-        w.emit('valid %s' % slot)
+        w.emit('valid %s' % slot); w.emit('valid %s' % slot)       # through the handle that came by the vanished route, and through its twin
         if x.parent == x.block:
             w.emit('has %s %s handle %s' % (kind, x.block, slot))
 
@@ -51,6 +51,49 @@ def readonly_interlude(w, rng):
     w.emit('fdrop'); w.emit('fopen rw auto')
     w.emit('dump')
     w.rebind()
+
+def readonly_setters_case(rng):
+    """a file whose entities carry every kind of stored value (strings, doubles, vectors, links); a read-only session tries to
+    overwrite each of them; what that session shows before it is closed is what the next session — and another process — shows"""
+    w = World(rng, names=PLAIN)
+    w.open('ow')
+    b = w.mk('B', None, name='b')
+    sec = w.mk('S', None, name='s'); p = w.mk('P', sec, name='p')
+    arrs = [w.mk('A', b, name='arr%d' % i, extra=[3]) for i in range(3)]
+    t = w.mk('T', b, name='t'); src = w.mk('O', b, name='o')
+    for a in arrs:
+        w.emit('adim %s sampled %s %s %s %s' % (a.slot, f64(rng.choice([0.5, 0.1])), S('time'), S('ms'), f64(rng.choice([1.5, -2.0]))))
+        w.emit('set %s origin %s' % (a.slot, f64(1.25)))
+        w.emit('set %s poly %s' % (a.slot, lst([f64(0.0), f64(2.0)])))
+        w.emit('set %s label %s' % (a.slot, S('lbl'))); w.emit('set %s unit %s' % (a.slot, S('mV')))
+        w.emit('da_fill %s %s' % (a.slot, lst([f64(1.0), f64(2.0), f64(3.0)])))
+    w.emit('adim %s range %s ~ %s' % (arrs[1].slot, lst([f64(1.0), f64(2.0)]), S('s')))
+    w.emit('pset %s uncertainty %s' % (p.slot, f64(0.5))); w.emit('pset %s unit %s' % (p.slot, S('mV')))
+    w.emit('set %s extent %s' % (t.slot, lst([f64(1.0)]))); w.emit('link ref %s handle %s' % (t.slot, arrs[0].slot))
+    w.emit('single metadata %s handle %s' % (arrs[0].slot, sec.slot))
+    w.emit('dump')
+    w.emit('fdrop'); w.emit('fopen ro auto'); w.rebind()
+    tries = []
+    for a in arrs:
+        tries += ['sdim %s 1 interval %s' % (a.slot, f64(0.25)), 'sdim %s 1 offset %s' % (a.slot, f64(7.0)), 'sdim %s 1 offset ~' % a.slot,
+                  'sdim %s 1 unit %s' % (a.slot, S('s')), 'sdim %s 1 label %s' % (a.slot, S('other')),
+                  'set %s origin %s' % (a.slot, f64(9.0)), 'set %s origin ~' % a.slot, 'set %s poly %s' % (a.slot, lst([f64(5.0)])),
+                  'set %s label %s' % (a.slot, S('x')), 'set %s unit %s' % (a.slot, S('kV')), 'set %s definition %s' % (a.slot, S('d')),
+                  'set %s type %s' % (a.slot, S('other')), 'da_fill %s %s' % (a.slot, lst([f64(9.0), f64(9.0), f64(9.0)])), 'da_setext %s [5]' % a.slot,
+                  'adim %s set %s' % (a.slot, lst([S('q')])), 'ddims %s' % a.slot, 'single metadata %s none ~' % a.slot]
+    tries += ['sdim %s 2 ticks %s' % (arrs[1].slot, lst([f64(3.0), f64(4.0)])),
+              'pset %s uncertainty %s' % (p.slot, f64(0.75)), 'pset %s uncertainty ~' % p.slot, 'pset %s unit %s' % (p.slot, S('s')), 'pset %s definition %s' % (p.slot, S('d')),
+              'pvalues %s ~' % p.slot, 'set %s extent %s' % (t.slot, lst([f64(4.0)])), 'set %s position %s' % (t.slot, lst([f64(4.0)])), 'set %s units %s' % (t.slot, lst([S('mV')])),
+              'unlink ref %s handle %s' % (t.slot, arrs[0].slot), 'link ref %s handle %s' % (t.slot, arrs[2].slot), 'link src %s handle %s' % (t.slot, src.slot),
+              'set %s repository %s' % (sec.slot, S('http://x')), 'set %s definition %s' % (b.slot, S('d')), 'del A %s handle %s' % (b.slot, arrs[2].slot)]
+    rng.shuffle(tries)
+    for l in tries[:rng.randint(4, 14)]: w.emit(l)
+    w.emit('dump')
+    w.emit('fdrop')
+    if rng.random() < 0.5: w.emit('dumpx %s' % rng.choice(['JST-9', 'UTC0']))
+    w.emit('fopen %s auto' % rng.choice(['ro', 'rw']))
+    w.emit('dump')
+    return w.lines
 
 def history(rng, tier):
     w = World(rng, names=NAMES if rng.random() < 0.5 else PLAIN)
@@ -103,10 +146,15 @@ def history(rng, tier):
     for q in watched: w.emit(q)
     # end of history, deliberately WITHOUT looking at the tree first: read-only session, another process with its own
     # time zone, read-write session — all three must show the same tree
-    w.emit('fdrop'); w.emit('fopen ro auto')
-    w.emit('dump')
+    # (in either order: straight after the writing session's close nothing has had a chance to tidy up after it)
     w.emit('fdrop')
-    w.emit('dumpx %s' % rng.choice(['JST-9', 'EST5', 'UTC0', 'CET-1CEST']))
+    tz = rng.choice(['JST-9', 'EST5', 'UTC0', 'CET-1CEST'])
+    if rng.random() < 0.5:
+        w.emit('dumpx %s' % tz)
+        w.emit('fopen ro auto'); w.emit('dump'); w.emit('fdrop')
+    else:
+        w.emit('fopen ro auto'); w.emit('dump'); w.emit('fdrop')
+        w.emit('dumpx %s' % tz)
     w.emit('fopen rw auto')
     w.emit('dump')
     w.rebind()
@@ -116,7 +164,9 @@ def history(rng, tier):
 def cases(tier, seed, rng):
     from vlib.runner import Case
     n = 50 if tier == 'quick' else 1200
-    return [Case(with_hdump(history(rng, tier), rng), 'gen:tree') for _ in range(n)]
+    out = [Case(with_hdump(history(rng, tier), rng), 'gen:tree') for _ in range(n)]
+    out += [Case(with_hdump(readonly_setters_case(rng), rng), 'gen:readonly-setters') for _ in range(12 if tier == 'quick' else 300)]
+    return out
 
 def nontrivial(case, tags):
     return any(t.startswith('dump.after_reopen') for t in tags)
